@@ -1,4 +1,5 @@
 import FluteModel.Lemmas.ObjRecvCache
+import FluteModel.Lemmas.ObjRecvPanicFree
 /-
   Object-level part of C17 (receiver memory bounded by configuration): the two limit checks of ObjectReceiver.
   Owner of C17 (props.d, session level): agent recv.
@@ -8,7 +9,7 @@ import FluteModel.Lemmas.ObjRecvCache
   Proved here: `cache_bounded` as an invariant over ALL histories (Lemmas/ObjRecvCache.lean: every model function leaves
   `(cache, cache_size)` unchanged or resets both, the replay loop only shrinks the cache and empties it); for the blocks the step
   lemmas `blocks_bounded_partial` / `blocks_over_limit_rejected` in the honest form the code supports (D31: the first two blocks
-  are exempt from the limit) - the induction `total_allocated_blocks_size = Σ block_size of the allocated blocks` is not done in Lean;
+  are exempt from the limit) and `blocks_bounded` over ALL histories (bottom of the file; the induction `total_allocated_blocks_size = Σ block_size of the allocated blocks` is the `CountOK` clause of `TInv`, Lemmas/ObjRecvPanicFree.lean);
   both are validated by the `probe` observations of engine orecv (cache bytes, cache_size, nb_allocated_blocks,
   total_allocated_blocks_size of the real Receiver vs model after every datagram, families limits/mutate/random; oracle classes
   C17:cache-over-limit, C17:blocks-over-limit).  D11 (cache_size never updated) was found by that oracle and repaired (f28d140);
@@ -111,5 +112,45 @@ theorem blocks_over_limit_rejected (P : Params) (st : St) (o : Oti) (tl : Nat) (
   rw [if_neg (by omega), if_pos ⟨hn, hover⟩] at h
   simp at h
   exact ⟨h.2.symm, by rw [← h.1]⟩
+
+/-- **Allocated source blocks are bounded over ALL histories**: for every history of parsed packets / FDT attachments from `new`
+    (input-side assumptions `Feasible` only; the run returns by `C04.Obj.run_total`) the `block_size` of all blocks of the deque sum to
+    at most `max_size` + 2 blocks (a block is below 2^48 bytes: L < 2^48), and - unless a terminal call already cleared the deque -
+    `total_allocated_blocks_size` / `nb_allocated_blocks` are EXACTLY that sum / the number of live blocks.  (The two exempt blocks are
+    finding D31 `C17:heap-first-two-blocks`.) -/
+theorem blocks_bounded (P : Params) (toi maxSize : Nat) (ops : List Op) (F : Feasible P maxSize ops) :
+    ∃ st', run P (St.new toi maxSize) ops = .ok st' ∧
+      wsum st'.blocks ≤ maxSize + 2 * 2^48 ∧
+      (st'.state = .receiving → st'.totalAlloc = wsum st'.blocks ∧ st'.nbAlloc = wcnt st'.blocks) := by
+  obtain ⟨D⟩ := F.dz
+  obtain ⟨st', h, hT⟩ := tinv_run P D ops (tinv_new toi maxSize F.max) F.wf
+  have hM : ∃ M, OpsLe M ops := by
+    clear h hT F
+    induction ops with
+    | nil => exact ⟨0, fun p hp => by cases hp⟩
+    | cons op r ih =>
+      obtain ⟨M, hM⟩ := ih
+      cases op with
+      | push q =>
+        refine ⟨max M q.dataLen, ?_⟩
+        intro p hp
+        simp only [List.mem_cons, Op.push.injEq] at hp
+        rcases hp with rfl | hp
+        · exact Nat.le_max_right _ _
+        · exact Nat.le_trans (hM p hp) (Nat.le_max_left _ _)
+      | attach id f =>
+        refine ⟨M, ?_⟩
+        intro p hp
+        simp only [List.mem_cons, reduceCtorEq, false_or] at hp
+        exact hM p hp
+  obtain ⟨M, hM⟩ := hM
+  have hm : st'.maxSize = maxSize :=
+    (cb_run P M _ ops ⟨by simp [cacheBytes, St.new], .inl rfl⟩ hM h).2
+  refine ⟨st', h, ?_, ?_⟩
+  · have := hT.blocks_bounded; rw [hm] at this; exact this
+  · intro hr
+    cases hT.cnt with
+    | inl c => exact ⟨c.sum, c.cnt⟩
+    | inr d => exact absurd hr d.2.1
 
 end Flute.Props.C17.Obj
